@@ -259,10 +259,10 @@ fn flush(rep: &mut Report, ps: usize, target: Target, rows: &mut Vec<Row>, rcase
 
 pub fn run(tier: &str, only: Option<&Value>) -> i32 {
     let mut rep = Report::new("C13", tier);
-    rep.rule = "Every accepted case of: the layout space with auxiliary module (C01/C02), a dedicated space of every subset of {copyable, cloneable, defaultable, packed} x fifteen field kinds (scalars, pointers, arrays up to 32, user structs with and without the same markers, enums with and without a default, extern type, pointer / array / nested arrays of plain and marked structs and enums, array of pointers) x same-module / cross-module, module documentation x rust prologue (imports, items, inner attributes) x epilogue in both backend forms (all must be accepted), declared names that look like generated ones and unnamed fields sharing an offset, the carry-over (C17), convention (C16), scoping (C11), enum (C08), hierarchy (C06/C07) and module-set (C19) spaces (quick: strided subsets of the larger ones) — is assembled into a crate (modules mirroring the input tree, extern types supplied) and type-checked in full by rustc for x86_64 (calling conventions normalised to \"C\") and, unmodified, for i686-pc-windows-msvc. Oracle: zero errors; deny-by-default lints count, warnings do not. distinct = distinct emitted crates".into();
+    rep.rule = "Every accepted case of: the layout space with auxiliary module (C01/C02; quick: without the three-field block over plain scalars, which C01 / C02 compile), a dedicated space of every subset of {copyable, cloneable, defaultable, packed} x fifteen field kinds (scalars, pointers, arrays up to 32, user structs with and without the same markers, enums with and without a default, extern type, pointer / array / nested arrays of plain and marked structs and enums, array of pointers) x same-module / cross-module, module documentation x rust prologue (imports, items, inner attributes) x epilogue in both backend forms (all must be accepted), declared names that look like generated ones and unnamed fields sharing an offset, the carry-over (C17), convention (C16), scoping (C11), enum (C08), hierarchy (C06/C07) and module-set (C19) spaces (quick: strided subsets of the larger ones) — is assembled into a crate (modules mirroring the input tree, extern types supplied) and type-checked in full by rustc for x86_64 (calling conventions normalised to \"C\") and, unmodified, for i686-pc-windows-msvc. Oracle: zero errors; deny-by-default lints count, warnings do not. distinct = distinct emitted crates".into();
     rep.assumptions = vec!["outside the fragment by construction: non-power-of-two alignments and arrays longer than 32 in defaultable types are not generated".into()];
     let src = sources(tier);
-    let layout = LayoutSpace::new_reduced(tier, true);
+    let layout = LayoutSpace::new_reduced(tier, true).without_scalar_triples();
     let only_i = only.map(|l| (l["space"].as_str().unwrap_or("").to_string(), l["index"].as_u64().unwrap_or(0) as usize, l["ps"].as_u64().unwrap_or(8) as usize));
     for ps in [4usize, 8] {
         if matches!(&only_i, Some((_, _, p)) if *p != ps) {
